@@ -190,8 +190,8 @@ class LocaleDataLoader:
             if region is None:
                 region = ""
             for language in languages:
-                locale = language + "-" + region if region else language
-                if _isvalidlocale(locale):
+                locale = language + "-" + region
+                if region and locale in language_locale_dict[language]:
                     locale_dict[locale] = (language, region)
                 else:
                     # the language has no such region: use the language itself
